@@ -89,6 +89,10 @@ pub fn gen_plan(seed: u64, faulty: bool, tier: Tier) -> Plan {
     // and leave, or leave at their first deadline - whoever polled last must not take the
     // wake-up for the next stream with it
     let leaving = rng.chance_pm(350);
+    // "late" mode: nobody accepts for 6-12 s (streams wait in the hand-off queues and in the
+    // per-stream tasks meanwhile), then acceptance may be slow as well
+    let late = rng.chance_pm(200);
+    let late_start = *rng.pick(&[6_000_000u64, 9_000_000, 12_000_000]);
     for bidi in [false, true] {
         for j in 0..rng.usize(if leaving { 2 } else { 1 }, 4) {
             let nd = rng.usize(1, 5);
@@ -106,8 +110,8 @@ pub fn gen_plan(seed: u64, faulty: bool, tier: Tier) -> Plan {
                 deadlines_us: (0..nd)
                     .map(|_| if leave_on_cancel { *rng.pick(&[1u64, 50, 300, 1_000, 5_000, 30_000, 150_000]) } else if cancelling { *rng.pick(&[0u64, 0, 1, 50, 300, 1_000, 5_000, 30_000, u64::MAX]) } else { u64::MAX })
                     .collect(),
-                delay_us: *rng.pick(&[0u64, 0, 100, 5_000, 40_000]),
-                start_us: *rng.pick(&[0u64, 0, 10_000, 200_000]),
+                delay_us: if late { *rng.pick(&[0u64, 5_000, 300_000, 700_000]) } else { *rng.pick(&[0u64, 0, 100, 5_000, 40_000]) },
+                start_us: if late { late_start + rng.range(0, 500_000) } else { *rng.pick(&[0u64, 0, 10_000, 200_000]) },
             });
         }
     }
@@ -415,7 +419,7 @@ pub fn def() -> PropertyDef {
     PropertyDef {
         id: "C08",
         scenarios: vec![Box::new(Typed(C08E2E { faulty: false })), Box::new(Typed(C08E2E { faulty: true }))],
-        rule: "Each run: real client and server with a concurrent-stream limit of 4/5/8/16; the opener (client or server) opens 1..2x (quick) / 1..3x (thorough) the limit streams (all uni, all bidi or mixed; in one burst or spread over 100 ms), each carrying a unique tag of 14..2000 bytes, and finishes them; the other side accepts with 1-4 tasks per kind, each with its own start time, per-call delay (0..40 ms) and a cycle of deadlines (0 = polled exactly once, 1 us .. 30 ms, or none) after which the pending accept future is dropped and reissued; in a third of the runs all but one task per kind leave after 1-3 streams or at their first deadline (the task that polled last must not take the next wake-up with it). Oracle (bag model over the recorded history): every value returned by an accept call is a stream the peer opened, of the right kind, returned exactly once; every opened stream is returned within 120 s simulated; the bytes read from it are the tag it was opened with. Fault batch: loss / duplication / reordering (a connection killed by the faults is inconclusive). Probe: number of accept calls cancelled. Non-trivial = at least one stream opened (and a fault fired in the fault batch); distinct = distinct plan hashes.",
+        rule: "Each run: real client and server with a concurrent-stream limit of 4/5/8/16; the opener (client or server) opens 1..2x (quick) / 1..3x (thorough) the limit streams (all uni, all bidi or mixed; in one burst or spread over 100 ms), each carrying a unique tag of 14..2000 bytes, and finishes them; the other side accepts with 1-4 tasks per kind, each with its own start time (in a fifth of the runs nobody accepts for the first 6-12 s), per-call delay (0..40 ms, up to 700 ms in those runs) and a cycle of deadlines (0 = polled exactly once, 1 us .. 30 ms, or none) after which the pending accept future is dropped and reissued; in a third of the runs all but one task per kind leave after 1-3 streams or at their first deadline (the task that polled last must not take the next wake-up with it). Oracle (bag model over the recorded history): every value returned by an accept call is a stream the peer opened, of the right kind, returned exactly once; every opened stream is returned within 120 s simulated; the bytes read from it are the tag it was opened with. Fault batch: loss / duplication / reordering (a connection killed by the faults is inconclusive). Probe: number of accept calls cancelled. Non-trivial = at least one stream opened (and a fault fired in the fault batch); distinct = distinct plan hashes.",
         assumptions: vec![
             "current-thread runtime only: parallel acceptors are modelled as interleavings at await points (the multi-thread half of the quantifier cannot be made replayable and is not claimed)",
             "quinn/rustls/tokio executed for real but trusted",
